@@ -44,6 +44,8 @@ func Main() {
 		os.Exit(runWorker(os.Args[2:]))
 	case "replay":
 		os.Exit(runReplay(os.Args[2:]))
+	case "child":
+		os.Exit(ChildMain(os.Args[2]))
 	default:
 		fmt.Fprintln(os.Stderr, "unknown command", os.Args[1])
 		os.Exit(2)
@@ -469,7 +471,7 @@ func spawnWorker(self, id, tier string, k, n int, out, trace string, only int64,
 	var se bytes.Buffer
 	cmd.Stderr = &limitedWriter{w: &se, n: 1 << 20}
 	cmd.Stdout = os.Stderr
-	cmd.Env = append(os.Environ(), "GOMAXPROCS=2")
+	cmd.Env = append(os.Environ(), "GOMAXPROCS=2", "GOGC=300")
 	if err := cmd.Start(); err != nil {
 		return nil, err.Error(), false
 	}
@@ -494,6 +496,8 @@ func spawnWorker(self, id, tier string, k, n int, out, trace string, only int64,
 	// exit 3 = watchdog reported a timeout itself; result file is valid.
 	return &res, se.String(), true
 }
+
+type bytesBuffer = bytes.Buffer
 
 type limitedWriter struct {
 	w *bytes.Buffer
